@@ -278,6 +278,8 @@ svcn!(SvcL, "pair<M1, M2>", M1);
 // (`/s438b6a3a7f167ba5/u64` and `/s3e37f0a03b0b3b50/u64`: 0x99206e2c9cfae303), found by a birthday search
 svcn!(SvcX, "s438b6a3a7f167ba5", u64);
 svcn!(SvcY, "s3e37f0a03b0b3b50", u64);
+// Q: a name that is a strict PREFIX of other registered names (`kv` of `kv::store`, `kv_store`)
+svcn!(SvcQ, "kv", M1);
 svcn!(SvcP0, "ping-0", M1);
 svcn!(SvcP1, "ping-1", M1);
 svcn!(SvcP2, "ping-2", M1);
@@ -669,6 +671,7 @@ impl Domain for RpcDomain {
                     "J" => srv.add_service(SvcJ { inst }),
                     "K" => srv.add_service(SvcK { inst }),
                     "L" => srv.add_service(SvcL { inst }),
+                    "Q" => srv.add_service(SvcQ { inst }),
                     "X" => srv.add_service(SvcX { inst }),
                     "Y" => srv.add_service(SvcY { inst }),
                     "P0" => srv.add_service(SvcP0 { inst }),
@@ -697,6 +700,7 @@ impl Domain for RpcDomain {
                     "J" => srv.remove_service(SvcJ::service_name()),
                     "K" => srv.remove_service(SvcK::service_name()),
                     "L" => srv.remove_service(SvcL::service_name()),
+                    "Q" => srv.remove_service("kv"),
                     "X" => srv.remove_service("s438b6a3a7f167ba5"),
                     "Y" => srv.remove_service("s3e37f0a03b0b3b50"),
                     "P0" => srv.remove_service("ping-0"),
@@ -738,6 +742,7 @@ impl Domain for RpcDomain {
                     ("S", "M2") => runtime().block_on(RpcClient::<SvcS>::new(ch).send(&M2 { tag: 2 })).map(|r| r.deserialize_view().unwrap_or(u64::MAX)),
                     ("S", "M3") => runtime().block_on(RpcClient::<SvcS>::new(ch).send(&M3 { tag: 3 })).map(|r| r.deserialize_view().unwrap_or(u64::MAX)),
                     ("S", "M4") => runtime().block_on(RpcClient::<SvcS>::new(ch).send(&M4 { tag: 4 })).map(|r| r.deserialize_view().unwrap_or(u64::MAX)),
+                    ("Q", "M1") => runtime().block_on(RpcClient::<SvcQ>::new(ch).send(&M1 { tag: 1 })).map(|r| r.deserialize_view().unwrap_or(u64::MAX)),
                     ("X", "U") => runtime().block_on(RpcClient::<SvcX>::new(ch).send(&7u64)).map(|r| r.deserialize_view().unwrap_or(u64::MAX)),
                     ("Y", "U") => runtime().block_on(RpcClient::<SvcY>::new(ch).send(&7u64)).map(|r| r.deserialize_view().unwrap_or(u64::MAX)),
                     ("P0", "M1") => runtime().block_on(RpcClient::<SvcP0>::new(ch).send(&M1 { tag: 1 })).map(|r| r.deserialize_view().unwrap_or(u64::MAX)),
